@@ -276,69 +276,56 @@ proof fn lemma_splice_take(buf: Seq<u8>, a: int, b: int, p: Seq<u8>)
     assert(d.subrange(0, a) =~= zero_ext(buf, a).subrange(0, a));
     assert(spliced(buf, a, b, p).take(a + p.len()) =~= d.subrange(0, a) + p);
 }
-// buffer after the non-final blocks 0..j of body `body`, each delivered dup(i) >= 1 times in a row, starting from ANY
-// buffer x0 (what an abandoned earlier upload left behind)
-pub open spec fn after_blocks(x0: Seq<u8>, body: Seq<u8>, s: int, j: int) -> Seq<u8>
-    decreases j
-{ if j <= 0 { x0 } else { b1_buf(after_blocks(x0, body, s, j - 1), j - 1, s, body.subrange((j - 1) * s, j * s)) } }
-proof fn lemma_mul_mono(a: int, b: int, s: int) requires a <= b, s >= 0 ensures a * s <= b * s { assert(a * s <= b * s) by (nonlinear_arith) requires a <= b, s >= 0; }
-// the first j*s bytes of the buffer are the first j*s bytes of the body, whatever was there before
-proof fn lemma_after_blocks(x0: Seq<u8>, body: Seq<u8>, s: int, j: int)
-    requires s > 0, 0 <= j, j * s <= body.len()
-    ensures after_blocks(x0, body, s, j).len() >= j * s, after_blocks(x0, body, s, j).subrange(0, j * s) == body.subrange(0, j * s)
-    decreases j
-{
-    if j > 0 {
-        lemma_mul_mono(j - 1, j, s);
-        lemma_mul_mono(0, j - 1, s);
-        assert((j - 1) * s + s == j * s) by (nonlinear_arith);
-        lemma_after_blocks(x0, body, s, j - 1);
-        let prev = after_blocks(x0, body, s, j - 1);
-        let p = body.subrange((j - 1) * s, j * s);
-        let d = zero_ext(prev, j * s);
-        let cur = b1_buf(prev, j - 1, s, p);
-        assert(d.len() >= j * s);
-        assert(cur == d.subrange(0, (j - 1) * s) + p + d.subrange(j * s, d.len() as int));
-        assert(cur.len() == d.len());
-        assert(d.subrange(0, (j - 1) * s) =~= prev.subrange(0, (j - 1) * s));
-        assert(p.len() == s);
-        assert(prev.subrange(0, (j - 1) * s) == body.subrange(0, (j - 1) * s));
-        assert(cur.subrange(0, j * s) =~= body.subrange(0, (j - 1) * s) + p);
-        assert(body.subrange(0, (j - 1) * s) + p =~= body.subrange(0, j * s));
-        assert(after_blocks(x0, body, s, j) == cur);
-    } else {
-        assert(j * s == 0) by (nonlinear_arith) requires j == 0;
-        assert(after_blocks(x0, body, s, 0).subrange(0, 0) =~= body.subrange(0, 0));
-    }
+// What C09 needs from one accepted non-final block delivered in order (offset inside or right at the end of the buffered data):
+// the buffer then holds, up to the end of this block, what it held before the block's offset followed by the block.  What
+// lies beyond is left open (a handler may keep it, as splicing does, or drop it, e.g. restart the buffer at block 0).
+pub open spec fn b1_step(buf0: Seq<u8>, buf1: Seq<u8>, num: int, s: int, p: Seq<u8>) -> bool {
+    num * s <= buf0.len() ==> buf1.len() >= num * s + s && buf1.take(num * s + s) == buf0.take(num * s) + p
 }
-// a block delivered again right after itself changes nothing (consecutive duplicates)
-proof fn lemma_b1_idempotent(buf: Seq<u8>, num: int, s: int, p: Seq<u8>)
+// the splice the code performs is such a step
+proof fn lemma_splice_is_step(buf: Seq<u8>, num: int, s: int, p: Seq<u8>)
     requires s > 0, num >= 0, p.len() == s
-    ensures b1_buf(b1_buf(buf, num, s, p), num, s, p) == b1_buf(buf, num, s, p)
+    ensures b1_step(buf, b1_buf(buf, num, s, p), num, s, p)
 {
     lemma_mul_mono(0, num, s);
-    let a = num * s; let b = a + s;
-    let d = zero_ext(buf, b);
-    let once = b1_buf(buf, num, s, p);
-    assert(once == d.subrange(0, a) + p + d.subrange(b, d.len() as int));
-    assert(once.len() == d.len());
-    let d2 = zero_ext(once, b);
-    assert(d2 == once);
-    assert(b1_buf(once, num, s, p) =~= once);
+    if num * s <= buf.len() {
+        lemma_splice_take(buf, num * s, num * s + s, p);
+        assert(zero_ext(buf, num * s) == buf);
+        assert(buf.subrange(0, num * s) =~= buf.take(num * s));
+        let d = zero_ext(buf, num * s + s);
+        assert(b1_buf(buf, num, s, p).len() == d.len());
+    }
 }
-// C09: uploading the blocks of `body` in order (k full blocks, then the final block with the remaining
-// 0..s bytes), from ANY previous buffer contents, hands the application exactly `body`
-proof fn theorem_c09_upload_delivers_body(x0: Seq<u8>, body: Seq<u8>, s: int, k: int)
-    requires s > 0, 0 <= k, k * s <= body.len() <= k * s + s
-    ensures b1_delivered(after_blocks(x0, body, s, k), k, s, body.subrange(k * s, body.len() as int)) == body
+// the first j blocks of `body` are in the buffer
+pub open spec fn prefix_ok(buf: Seq<u8>, body: Seq<u8>, s: int, j: int) -> bool { buf.len() >= j * s && buf.take(j * s) == body.take(j * s) }
+proof fn lemma_mul_mono(a: int, b: int, s: int) requires a <= b, s >= 0 ensures a * s <= b * s { assert(a * s <= b * s) by (nonlinear_arith) requires a <= b, s >= 0; }
+// induction step of the upload history: with blocks 0..j buffered, an accepted block num <= j of the same body (the next
+// block: num == j; a block delivered again: num == j - 1; the upload started over: num == 0) leaves blocks 0..num+1
+// buffered - whatever was in the buffer before the upload began (j == 0: nothing is assumed about it)
+proof fn lemma_b1_step_prefix(buf0: Seq<u8>, buf1: Seq<u8>, body: Seq<u8>, s: int, j: int, num: int)
+    requires s > 0, 0 <= num <= j, (num + 1) * s <= body.len(), j * s <= body.len(), prefix_ok(buf0, body, s, j),
+        b1_step(buf0, buf1, num, s, body.subrange(num * s, (num + 1) * s))
+    ensures prefix_ok(buf1, body, s, num + 1)
 {
-    lemma_after_blocks(x0, body, s, k);
+    lemma_mul_mono(num, j, s);
+    lemma_mul_mono(0, num, s);
+    assert((num + 1) * s == num * s + s) by (nonlinear_arith);
+    let p = body.subrange(num * s, (num + 1) * s);
+    assert(buf0.take(num * s) =~= buf0.take(j * s).take(num * s));
+    assert(body.take(j * s).take(num * s) =~= body.take(num * s));
+    assert(body.take(num * s) + p =~= body.take((num + 1) * s));
+}
+// C09: with the k full blocks of `body` buffered (however the history got there: in order, with blocks delivered again,
+// over whatever an abandoned upload left), the final block with the remaining 0..s bytes hands the application exactly `body`
+proof fn theorem_c09_upload_delivers_body(buf: Seq<u8>, body: Seq<u8>, s: int, k: int)
+    requires s > 0, 0 <= k, k * s <= body.len() <= k * s + s, prefix_ok(buf, body, s, k)
+    ensures b1_delivered(buf, k, s, body.subrange(k * s, body.len() as int)) == body
+{
     lemma_mul_mono(0, k, s);
-    let buf = after_blocks(x0, body, s, k);
     let p = body.subrange(k * s, body.len() as int);
-    let d = zero_ext(buf, k * s + s);
     assert(zero_ext(buf, k * s) == buf);
-    assert(body.subrange(0, k * s) + p =~= body);
+    assert(buf.subrange(0, k * s) =~= buf.take(k * s));
+    assert(body.take(k * s) + p =~= body);
 }
 
 // ---------------------------------------------------------------- C08 history lemma
@@ -642,7 +629,7 @@ def build(repo):
                let b = first_block(opts_view(old(request).message.options), 27); let p = old(request).message.payload@;
                b is Some && r is Ok && b->0.more ==> r->Ok_0 && final(state).cached_request_payload is Some
                    // (a non-final block carries exactly `size` bytes, RFC 7959 2.2; nothing is claimed about the buffer for a short one)
-                   && (p.len() == sz(b->0.size_exponent) ==> buf_of(*final(state)) == b1_buf(buf_of(*old(state)), b->0.num as int, sz(b->0.size_exponent), p))
+                   && (p.len() == sz(b->0.size_exponent) ==> b1_step(buf_of(*old(state)), buf_of(*final(state)), b->0.num as int, sz(b->0.size_exponent), p))
                    && same_msg(final(request).message, old(request).message)
                    && final(request).response->0.message.header.code == MessageClass::Response(ResponseType::Continue)
                    && final(request).response->0.message.payload@ == old(request).response->0.message.payload@
@@ -700,6 +687,17 @@ def build(repo):
                     assert((request_block1.num as int) * sz(e) <= 65535 * 2048) by (nonlinear_arith)
                         requires 0 <= request_block1.num as int <= 65535, 0 <= sz(e) <= 2048;
                 }''')
+    # C09 step: what the buffer holds up to the end of this block (stated from the buffer as it is right before the splice,
+    # so that a handler which first drops stale data - e.g. restarts at block 0 - is covered by the same argument)
+    u.before(B1, r'let payload_offset\s*=', '''                let ghost pre_splice = cached_payload@;''')
+    u.after_stmt(B1, r'extending_splice_u8\(', '''                proof {
+                    let n = request_block1.num as int; let sb = sz(request_block1.size_exponent); let p = request.message.payload@;
+                    assert(n == 0 ==> n * sb == 0) by (nonlinear_arith);
+                    if p.len() == sb {
+                        lemma_splice_is_step(pre_splice, n, sb, p);
+                        if n * sb <= buf_of(*old(state)).len() { assert(pre_splice.take(n * sb) =~= buf_of(*old(state)).take(n * sb)); }
+                    }
+                }''')
     IR = (BH, 'intercept_response')
     u.after_stmt(IR, r'let state = states_entry', '''        let ghost st0 = *state;
         let ghost q0 = *request;
@@ -731,7 +729,7 @@ def build(repo):
                             assert(served(q0, *request, request_block2, msg, Ok(true)));
                             assert(intercept_resp_post(q0, *request, st0, *state, m, Ok(true)));
                         }''')
-    for fn, pr in [('theorem_c08_blocks_reassemble', ['C08']), ('lemma_blocks_concat', ['C08']), ('lemma_c08_rescaled_offset', ['C08']), ('theorem_c09_upload_delivers_body', ['C09']), ('lemma_b1_idempotent', ['C09']), ('lemma_after_blocks', ['C09'])]:
+    for fn, pr in [('theorem_c08_blocks_reassemble', ['C08']), ('lemma_blocks_concat', ['C08']), ('lemma_c08_rescaled_offset', ['C08']), ('theorem_c09_upload_delivers_body', ['C09']), ('lemma_b1_step_prefix', ['C09']), ('lemma_splice_is_step', ['C09'])]:
         u.probe(fn)
         u.props(fn, pr)
     u.finish(common.HEAD)
